@@ -101,8 +101,7 @@ def run(ctx):
                     if multi:
                         ctx.nontrivial(("perm", i, hashlib.sha1(" ".join(order).encode()).hexdigest()[:8]))
                 vh.call(op="drop_db", db=db)
-            if i < 2:
-                ctx.sample({"workspace": ws.spec, "orders": K, "sensitive_names": sorted(sens)})
+            ctx.sample({"workspace": ws.spec, "orders": K, "sensitive_names": sorted(sens)})
             ctx.count("workspaces")
             if i < n_proc_ws:
                 proot = ctx.scratch(f"pw{i}")
